@@ -6,6 +6,7 @@ package vsync
 import (
 	"sync"
 	"sync/atomic"
+	"weak"
 
 	"cuelang.org/go/internal/verif/sched"
 )
@@ -266,35 +267,50 @@ type Map struct {
 
 var (
 	allMapsMu sync.Mutex
-	allMaps   []*Map
+	allMaps   []weak.Pointer[Map]
 )
 
-// ResetAllMaps clears every shim Map that has been used so far.
-// Process-wide caches (type caches keyed by reflect.Type) otherwise make the
-// first execution of a scenario take a different path than the following ones,
-// which a stateless explorer cannot replay.
+// ResetAllMaps clears every shim Map that has been used so far and is still
+// alive. Process-wide caches (type caches keyed by reflect.Type) otherwise
+// make the first execution of a scenario take a different path than the
+// following ones, which a stateless explorer cannot replay.
 func ResetAllMaps() {
 	allMapsMu.Lock()
 	defer allMapsMu.Unlock()
-	for _, m := range allMaps {
-		m.real.Clear()
+	live := allMaps[:0]
+	for _, w := range allMaps {
+		if m := w.Value(); m != nil {
+			m.real.Clear()
+			live = append(live, w)
+		}
 	}
+	allMaps = live
 }
 
 func (m *Map) pt(kind string) {
-	s := sched.Cur()
-	if s == nil {
-		return // free-running: nothing to record (and nothing to reset later)
-	}
+	// Maps register on first use, also when running free: a cache warmed by a
+	// free-running baseline must be cleared before the first scheduled
+	// execution. Weak references keep per-instance maps collectable.
 	if !m.registered.Load() {
 		allMapsMu.Lock()
 		if !m.registered.Load() {
 			m.registered.Store(true)
-			allMaps = append(allMaps, m)
+			allMaps = append(allMaps, weak.Make(m))
+			if len(allMaps) > 4096 && len(allMaps)&(len(allMaps)-1) == 0 {
+				live := allMaps[:0]
+				for _, w := range allMaps {
+					if w.Value() != nil {
+						live = append(live, w)
+					}
+				}
+				allMaps = live
+			}
 		}
 		allMapsMu.Unlock()
 	}
-	s.Point(&sched.Op{Kind: kind, Obj: m})
+	if s := sched.Cur(); s != nil {
+		s.Point(&sched.Op{Kind: kind, Obj: m})
+	}
 }
 func (m *Map) Load(k any) (any, bool) { m.pt("map.load"); return m.real.Load(k) }
 func (m *Map) Store(k, v any)         { m.pt("map.store"); m.real.Store(k, v) }
